@@ -38,6 +38,10 @@ for m in sorted(glob.glob("/verif/seeded-negative/*/meta.json")):
     from collections import Counter
     cb, cp = Counter((r, f) for (r, f, c) in base_cache[base]), Counter((r, f) for (r, f, c) in v)
     extra = {x for x in extra if cp[(x[0], x[1])] > cb[(x[0], x[1])]}
+    # ... and when the patch moved the reported construct into another function (C02-r5p2 on its old base: the
+    # TerminalFID call of the base's unrepaired funCall moved into a helper), per rule
+    rb, rp = Counter(r for (r, f, c) in base_cache[base]), Counter(r for (r, f, c) in v)
+    extra = {x for x in extra if not (rb[x[0]] > 0 and rp[x[0]] <= rb[x[0]])}
     kfa = d.get("known_false_alarm")
     if failed:
         print(name, "CHECK-FAILED"); bad += 1
